@@ -17,6 +17,7 @@ TReset == /\ Is("Reset")
           /\ engine' = E.engine
           /\ status' = [e \in EP |-> "unknown"]
           /\ down' = [e \in EP |-> FALSE]
+          /\ boom' = [e \in EP |-> FALSE]
           /\ models' = [e \in EP |-> IF e \in DOMAIN E.models THEN {E.models[e][i] : i \in 1..Len(E.models[e])} ELSE {}]
           /\ ebFail' = [e \in EP |-> 0] /\ ebOpen' = [e \in EP |-> FALSE]
           /\ rq' = <<>> /\ gauge' = [e \in EP |-> 0]
@@ -25,13 +26,14 @@ TReset == /\ Is("Reset")
 \* a health round was run and the repository now says E.st
 THealth == /\ Is("Health")
            /\ status' = [e \in EP |-> StOf(E.st, e)]
-           /\ UNCHANGED <<engine, down, models, ebFail, ebOpen, rq, gauge, cnt>> /\ Consume
+           /\ UNCHANGED <<engine, down, boom, models, ebFail, ebOpen, rq, gauge, cnt>> /\ Consume
 \* the repository as polled after a request: must equal the specification's view (C04: a connection-level
 \* failure takes the endpoint out of rotation, nothing else changes a status)
 TRepo == /\ Is("Repo") /\ \A e \in EP : status[e] = StOf(E.st, e)
          /\ \A r \in Reqs : rq[r].phase = "done"
          /\ UNCHANGED vars /\ l' = l + 1
 TDown == Is("Down") /\ SetDown(E.e, E.d) /\ Consume
+TBoom == Is("Boom") /\ SetBoom(E.e, E.b) /\ Consume
 TClientSend == Is("ClientSend") /\ Arrive(E.r, E.route, E.model) /\ Consume
 TBackendRecv == /\ Is("BackendRecv")
                 /\ AttemptStart(E.r, E.e, E.kind, E.pst, E.pn, E.pk, E.pb, E.sig)
@@ -61,10 +63,23 @@ TSilent == /\ \/ \E r \in Reqs : AttemptEnd(r)
               \/ \E r \in Reqs : \E e \in EP : Refused(r, e)
               \/ \E r \in Reqs : \E e \in EP : BreakerSkip(r, e)
               \/ \E r \in Reqs : GiveUp(r)
+              \/ \E r \in Reqs : \E e \in EP : AttemptPanics(r, e)
            /\ Silent
 
+(* Known finding KF-C19-2 (only if listed): an attempt that panics inside olla is counted in the gauge and   *)
+(* released again, but is never booked in the endpoint's request counters (neither success nor failure).     *)
+KF_C19_2 == /\ "KF-C19-2" \in KnownDeviations
+            /\ \E r \in Reqs : \E e \in EP :
+                 /\ rq[r].phase = "choosing" /\ e \in Untried(r) /\ ~rq[r].started
+                 /\ boom[e] /\ ~down[e] /\ ~(engine = "olla" /\ ebOpen[e])
+                 \* exactly AttemptPanics without the bookkeeping (the endpoint is not added to `tried`, so
+                 \* the conservation invariant keeps describing what WAS recorded)
+                 /\ rq' = [rq EXCEPT ![r] = [@ EXCEPT !.phase = "crashed", !.last = "panic"]]
+            /\ UNCHANGED <<engine, status, down, boom, models, ebFail, ebOpen, gauge, cnt>>
+            /\ Silent /\ UseDeviation("KF-C19-2")
+
 TraceInit == Init /\ l = 1
-TraceNext == TReset \/ THealth \/ TRepo \/ TDown \/ TClientSend \/ TBackendRecv \/ TClientDone \/ TStats \/ TSilent
+TraceNext == TReset \/ THealth \/ TRepo \/ TDown \/ TBoom \/ TClientSend \/ TBackendRecv \/ TClientDone \/ TStats \/ TSilent \/ KF_C19_2
 TraceSpec == TraceInit /\ [][TraceNext]_tvars
 HW == HWMark(l)
 =============================================================================
